@@ -1,3 +1,3 @@
 SPECIFICATION Spec
-INVARIANTS InvRoundTrip InvFraming InvTemplate
+INVARIANTS InvRoundTrip InvFraming InvTemplate InvAlt
 CHECK_DEADLOCK FALSE
